@@ -5,6 +5,8 @@ pub mod c03;
 pub mod c04;
 pub mod c04_dgram;
 pub mod c05;
+pub mod c06;
+pub mod c06_sys;
 pub mod c11;
 pub mod c11_sys;
 
@@ -19,6 +21,7 @@ pub fn registry() -> Vec<Property> {
         Property { id: "C03", run: c03::run, subs: c03::subs },
         Property { id: "C04", run: c04::run, subs: c04::subs },
         Property { id: "C05", run: c05::run, subs: c05::subs },
+        Property { id: "C06", run: c06::run, subs: c06::subs },
         Property { id: "C11", run: c11::run, subs: c11::subs },
     ]
 }
